@@ -30,7 +30,9 @@ def run(R):
     R.rule = ("exhaustive grid: every sample count n in 1..%d x every batch size in 1..n+2, 'full', None, for the gaussian, "
               "poisson, excitation and variance-minimisation procedures on an underdetermined 3x4 system with K, baseline, "
               "weights and per-source bounds that differ between sources (so that mis-stacked bounds show); rows pairwise "
-              "distinct, in- and out-of-gamut mixed; targets (and 2-D weights) handed in as C-ordered / Fortran-ordered "
+              "distinct, in- and out-of-gamut mixed, except that zero, one or two rows of a group are dark (target = baseline capture, i.e. no light; "
+              "gaussian, poisson and variance-minimisation fits; out of gamut where a lower bound is non-zero; across the batch sizes solved alone, next to another dark row, next to lit rows, next "
+              "to the padding; not in the whole-number groups); targets (and 2-D weights) handed in as C-ordered / Fortran-ordered "
               "(e.g. a transposed table) / strided arrays, lists, or integer arrays when whole (n = 2, 5, 8 use whole-number "
               "targets, except on the over-determined shapes where rounding would leave no in-gamut row) - the model sees values only, arguments must be unchanged afterwards; the hook-recorded (batch idx, padded, rows written) "
               "sequence is compared literally with the Lean batchPlan; results of every batch size are compared with batch "
@@ -123,8 +125,22 @@ def run(R):
     R.driver.run()
     for gi, (sysname, n, bs) in enumerate(grid):
         S_ = SYS[sysname]
-        B, outmask = targets(n, R.rng(7, n), sysname)
+        B0, outmask = targets(n, R.rng(7, n), sysname)
+        # dark rows: "no light" is a legitimate target (black pixels of an image, the pause between flashes): the capture equals the
+        # baseline capture (zero for the excitation fit, which is run without baseline). With the non-zero lower bounds of sources 1 and 3
+        # darkness is out of gamut and its best fit is the in-bound point closest to it. Zero, one or two rows of a call are dark (own
+        # random stream, same rows for every batch size of the group), so that across the batch sizes a dark row is solved alone, next to
+        # another dark row, next to lit rows and next to the padding. (Not in the whole-number groups: the baseline capture is not whole.)
+        rd = R.rng(43, n, SHAPES.index(sysname))
+        ndark = 0 if (n % 3 == 2 and sysname in ("under", "exact")) else min(n, int(rd.choice([0, 1, 1, 2])))
+        dark = np.zeros(n, dtype=bool); dark[rd.permutation(n)[:ndark]] = True
         for model in gmodels(sysname):
+            B = B0.copy()
+            if model != "excitation":
+                # (not for the excitation fit: with non-zero lower bounds its bisection does not converge on an all-zero target at any
+                # batch size, one included -- RuntimeError('Optimization did not converge'), loud and not a matter of the batch size --
+                # and the group would lose the reference the property compares with)
+                B[dark] = bp
             t = R.driver.get("p%d_%s" % (gi, model))
             bsz = t.nat(); nw = t.nat()
             plan = [(t.nat(), t.bool(), t.nat(), t.nat()) for _ in range(nw)]
@@ -135,6 +151,9 @@ def run(R):
                 continue
             c = dict(k=k, model=model, system=sysname, n=n, batch_size=batch_text(bs), A=S_["A"], K=K, baseline=base, lb=S_["lb"], ub=S_["ub"], w=w, B=B)
             R.count("model:" + model); R.count("grid-system:%s(%dx%d)" % (sysname, nf, S_["ns"]))
+            if model != "excitation":
+                R.count("dark-rows-in-call:%d of %d:%s" % (ndark, n, "lower bounds > 0" if np.any(S_["lb"] > 0) else "lower bounds 0"))
+                c["dark_rows"] = np.flatnonzero(dark).tolist()
             padded = any(p[1] for p in plan)
             R.count("padded:%s" % padded)
             # same values, another representation (implementation side only)
